@@ -173,6 +173,42 @@ pub(crate) unsafe extern "C" fn ghost_close(fd: libc::c_int) -> libc::c_int {
     ghost_fd_closed(fd);
     0
 }
+/// stubs for std's lock acquisition: in a single-threaded harness `lock()` on a free lock is `try_lock()`,
+/// and on a lock this thread already holds it never returns (reported as self-deadlock).  They replace the
+/// futex slow paths, which are expensive to encode and irrelevant here.
+pub(crate) fn ghost_mutex_lock<T: ?Sized>(m: &std::sync::Mutex<T>) -> std::sync::LockResult<std::sync::MutexGuard<'_, T>> {
+    match m.try_lock() {
+        Ok(guard) => Ok(guard),
+        Err(std::sync::TryLockError::Poisoned(p)) => Err(p),
+        Err(std::sync::TryLockError::WouldBlock) => {
+            assert!(false, "lock taken while this thread already holds it (self-deadlock)");
+            kani::assume(false);
+            unreachable!()
+        }
+    }
+}
+pub(crate) fn ghost_rwlock_read<T: ?Sized>(m: &std::sync::RwLock<T>) -> std::sync::LockResult<std::sync::RwLockReadGuard<'_, T>> {
+    match m.try_read() {
+        Ok(guard) => Ok(guard),
+        Err(std::sync::TryLockError::Poisoned(p)) => Err(p),
+        Err(std::sync::TryLockError::WouldBlock) => {
+            assert!(false, "read lock requested while this thread holds the write lock (self-deadlock)");
+            kani::assume(false);
+            unreachable!()
+        }
+    }
+}
+pub(crate) fn ghost_rwlock_write<T: ?Sized>(m: &std::sync::RwLock<T>) -> std::sync::LockResult<std::sync::RwLockWriteGuard<'_, T>> {
+    match m.try_write() {
+        Ok(guard) => Ok(guard),
+        Err(std::sync::TryLockError::Poisoned(p)) => Err(p),
+        Err(std::sync::TryLockError::WouldBlock) => {
+            assert!(false, "write lock requested while this thread already holds the lock (self-deadlock)");
+            kani::assume(false);
+            unreachable!()
+        }
+    }
+}
 pub(crate) fn ghost_alloc_error(_l: std::alloc::Layout) -> ! {
     kani::assume(false);
     loop {}
